@@ -62,7 +62,7 @@ def make_target(rng, kind):
         t.update(means=(-1.0, 2.0), variances=(0.5, 1.5))
     elif kind in ("lganm_sample", "anm_sample"):
         t.update(means=np.round(rng.uniform(-2, 2, p), 2), variances=np.round(rng.uniform(0.2, 2, p), 2), n=int(rng.integers(1, 40)),
-                 do={int(rng.integers(p)): (1.0, 0.5)} if rng.random() < 0.5 else {},
+                 do={int(rng.integers(p)): ((1.0, 0.5) if rng.random() < 0.5 else (1.5, 0.0))} if rng.random() < 0.6 else {},
                  shift={int(rng.integers(p)): (0.5, 0.25)} if rng.random() < 0.5 else {},
                  noises=[["normal", "uniform", "laplace"][int(x)] for x in rng.integers(0, 3, p)])
         if kind == "anm_sample" and t["seed"] >= 2**32:
@@ -304,7 +304,11 @@ def gen(tier, seed, shard, nshards):
             continue
         rng = util.rng_for("C13", seed, "u", k)
         kind = ["lganm_sample", "nd_sample", "anm_sample"][k % 3]
-        yield "unseeded", {"target": make_target(rng, kind), "reseed": None}
+        t = make_target(rng, kind)
+        if t.get("do"):
+            # a point-mass do on the only variable makes the law degenerate: identical unseeded samples would be legitimate
+            t["do"] = {j: (v[0], v[1] if v[1] > 0 else 0.5) for j, v in t["do"].items()}
+        yield "unseeded", {"target": t, "reseed": None}
 
 
 def _fresh_digest(target):
